@@ -65,7 +65,7 @@ PROPS = {
                 "that was displaced from its home slot, rehashed up and down, and had a probe sequence wrap around slot 0; "
                 "distinct = distinct event-trace hashes.",
         "stages": _cont(2, 20000, 600_000, 10),
-        "rare_probes": ["table.update_displaced", "table.rehash_up", "table.rehash_down", "table.probe_wrapped", "table.resize0", "map.absent_get", "map.absent_rem"],
+        "rare_probes": ["new.plain_struct_elems", "table.update_displaced", "table.rehash_up", "table.rehash_down", "table.probe_wrapped", "table.resize0", "map.absent_get", "map.absent_rem"],
         "assumptions": ["sequential consistency inside one thread", "reference model semantics as in DESIGN.md appendix A",
                         "self-assignment, mutation during iteration and in-place key mutation are outside the workload"],
     },
@@ -77,7 +77,7 @@ PROPS = {
                 "node count, height <= 2*log2(n+1)) through the read-only accessor hook. Non-trivial = the run exercised at least 3 "
                 "distinct removal-repair situations (classified from the tree shape just before each rem); distinct = distinct trace hashes.",
         "stages": _cont(3, 20000, 600_000, 10),
-        "rare_probes": ["tree.rem_root", "tree.rem_two_children", "tree.fix_red_sibling", "tree.fix_black_sib_red_parent",
+        "rare_probes": ["new.plain_struct_elems", "tree.rem_root", "tree.rem_two_children", "tree.fix_red_sibling", "tree.fix_black_sib_red_parent",
                         "tree.fix_black_sib_black_parent", "tree.fix_far_nephew_red", "tree.fix_near_nephew_red", "tree.rem_black_one_child"],
         "assumptions": COMMON_ASSUME,
     },
@@ -89,7 +89,7 @@ PROPS = {
                 "sortedness + multiset equality. Non-trivial = the run crossed >= 2 Array growths and >= 1 shrink of the backing store "
                 "and used negative indices on >= 3 operation kinds; distinct = distinct trace hashes.",
         "stages": _cont(4, 20000, 600_000, 10),
-        "rare_probes": ["seq.array_grow", "seq.array_shrink", "seq.neg_get", "seq.neg_set", "seq.neg_pop_at", "seq.neg_push_at",
+        "rare_probes": ["new.plain_struct_elems", "seq.array_grow", "seq.array_shrink", "seq.neg_get", "seq.neg_set", "seq.neg_pop_at", "seq.neg_push_at",
                         "seq.sort_with_duplicates", "seq.rem_duplicate", "seq.concat_cross", "seq.resize_pad", "seq.resize_reserve"],
         "assumptions": COMMON_ASSUME + ["push_at with a negative index is checked weakly (inserted once, others keep order)",
                                        "resize(n > len) may reserve or pad with zero elements"],
